@@ -7,7 +7,7 @@ EXPLANATION = ('symx executes the real resolution builder (set_parse_result -> _
                'The "non-existent date -> not resolved" and "definite TIMEX = value" clauses for dates are decided end to end by C06 O6.2, for times by C07 O7.2/O7.4.')
 ASSUMPTIONS = ['the per-type parsers hand the builder future/past dictionaries with the keys of their type (as BaseDateParser.parse etc. do)',
                'min-value sides are considered for date and datetime kinds (a time of day has no min-value rendering)']
-OUTSIDE = ['"every entity produced on the Specs inputs" (corpus replay)', 'set / timezone types, Chinese merged parser', 'holiday date functions']
+OUTSIDE = ['Specs inputs of cultures other than English; the 58 English inputs whose symbolic exploration does not finish in 60 s', 'set / timezone types, Chinese merged parser', 'holiday date functions']
 B = 'recognizers_date_time.date_time.base_merged:BaseMergedParser.'
 
 
@@ -37,4 +37,19 @@ def obligations(tier):
               bounds='year 1..9999, month -1..14, day -1..33, hour -1..25, minute -1..61',
               encodes=['recognizers_date_time.date_time.utilities:DateUtils.safe_create_from_value', 'recognizers_date_time.date_time.utilities:DateUtils.is_valid_date',
                        'recognizers_date_time.date_time.utilities:DateUtils.is_valid_time'])]
+    import json as _json
+    import os as _os
+    pool = _json.load(open(_os.path.join(_os.path.dirname(_os.path.dirname(_os.path.abspath(__file__))), 'harness', 'c11_inputs.json'), encoding='utf-8'))
+    ok = [x['q'] for x in pool['discharged']]
+    quick_q = [x['q'] for x in pool['discharged'] if x['wall'] <= 12][::18]
+    qs = quick_q if tier == 'quick' else ok + pool['duration_not_resolved']
+    obs.append(Ob('O11.4-corpus-wellformed', 'sx', 'harness.apidt:h_wellformed', twin=None, slices=[{'q': q} for q in qs], timeout=90 if tier == 'quick' else 240,
+                  descr='API level, symbolic reference datetime: for each English DateTimeModel Specs input (a pool of realistic queries; expected outputs not consulted) and EVERY reference datetime, '
+                        'every value of every returned entity has the shape its type promises: valid calendar dates / times, type name = type of the values, pure date ranges with start before end',
+                  bounds='reference = every minute 1950-01-01..2090-12-31 (symbolic day number, hour, minute); %d inputs (thorough: %d); the 13 inputs of F45 and the input of F46 are excluded by input' % (len(quick_q), len(ok) + len(pool['duration_not_resolved'])),
+                  encodes=['recognizers_date_time.date_time.base_merged:BaseMergedParser.parse', 'recognizers_date_time.date_time.base_merged:BaseMergedParser.set_parse_result',
+                           'recognizers_date_time.date_time.models:DateTimeModel.parse'],
+                  stubs=['DateTimeModel.parse mirrored with the same swallow-exceptions behaviour for parser errors; unmodelled calendar operations end the slice as inconclusive']))
+    obs.append(Ob('O11.4-witness-range', 'fn', 'harness.witness:api_witness', slices=[{'w': 'F45'}], timeout=t, finding='F45', descr='API witness of F45 (range with a reference-relative endpoint: start not before end)'))
+    obs.append(Ob('O11.4-witness-time', 'fn', 'harness.witness:api_witness', slices=[{'w': 'F46'}], timeout=t, finding='F46', descr='API witness of F46 (time range end 27:00:00)'))
     return obs
